@@ -491,7 +491,7 @@ UserCreate(s) ==
     /\ EnvW("EnvCreate", s, cr[s], cr'[s]) /\ UNCHANGED <<obj, pc, dyn, budget>>
 
 UserLifecycle(s, life) ==
-    /\ cr[s].exists /\ cr[s].life # life /\ cr[s].life # "Archived" /\ ~cr[s].deleting /\ Spend("env")
+    /\ cr[s].exists /\ cr[s].life # life /\ ~cr[s].deleting /\ Spend("env")      \* the API does not restrict transitions (also out of Archived)
     /\ cr' = [ cr EXCEPT ![s] = [ @ EXCEPT !.life = life, !.ver = @ + 1, !.gen = @ + 1, !.availCur = FALSE ] ]
     /\ EnvW("EnvSetLifecycle", s, cr[s], cr'[s]) /\ UNCHANGED <<obj, pc, dyn, uidc>>
 
